@@ -14,6 +14,7 @@ Spec: spec/TokenAware.tla - TokenAwarePlan(reps, child, up, dist, shuffle) = rep
       Keyspace choice: (session keyspace, statement keyspace) pairs over two keyspaces with different replicas for
       the key: the statement's keyspace wins when it names one (StatementKeyspaceWins); bound on a real Metadata
       with two NetworkTopologyStrategy keyspaces.
+      Shared addresses: hosts are endpoints (address + port); combinations in which hosts share an IP address.
 Bind: every enumerated input combination is evaluated on the real TokenAwarePolicy wrapping a fixed-plan child
       policy, over a real Metadata whose token map and keyspace come from a Placement.tla instance whose real
       get_replicas list for the chosen key has the enumerated length (hosts renamed so that the lists coincide);
@@ -53,7 +54,7 @@ MAX_REPORTED_PER_SIGNATURE = 2
 def ring_index(ctx, n):
     """Placement.tla instances -> {replica-list length: [(instance, key position)]} using the real get_replicas;
     instances on which the real replica list is not the specified set (C26's concern) are left out."""
-    consts = {"MaxHosts": n, "MaxDCs": 2, "MaxRacks": 2, "MaxRing": 4, "MaxRF": 3, "Lens": {1, 2, 3, 4}, "MaxAlters": 0, "MaxMoves": 0, "MaxOps": 0}
+    consts = {"MaxHosts": n, "MaxDCs": 2, "MaxRacks": 2, "MaxRing": 4, "MaxRF": 3, "Lens": {1, 2, 3, 4}, "MaxAlters": 0, "MaxMoves": 0, "MaxOps": 0, "ZeroStyles": {"omitted"}}
     cfg = tlc.write_cfg(os.path.join(ctx.scratch, "PlacementRings.cfg"), constants=consts,
                         invariants=["TypeOK", "SimpleCount", "NTSCountPerDc", "LookupOK"], deadlock=False)
     res, states = tlc.enumerate_states("Placement", cfg, ctx.scratch, timeout=900)
@@ -197,8 +198,8 @@ def alter_plans(inst, shuffle, down):
 
 def alter_domain(ctx, by_sig):
     """AlterReplication between plans: TLC-enumerated rings x settings histories, bound on the real objects."""
-    consts = ({"MaxHosts": 3, "MaxDCs": 2, "MaxRacks": 2, "MaxRing": 3, "MaxRF": 2, "Lens": {2, 3}, "MaxAlters": 1, "MaxMoves": 0, "MaxOps": 1} if ctx.quick else
-              {"MaxHosts": 3, "MaxDCs": 2, "MaxRacks": 2, "MaxRing": 4, "MaxRF": 2, "Lens": {2, 3, 4}, "MaxAlters": 1, "MaxMoves": 0, "MaxOps": 1})
+    consts = ({"MaxHosts": 3, "MaxDCs": 2, "MaxRacks": 2, "MaxRing": 3, "MaxRF": 2, "Lens": {2, 3}, "MaxAlters": 1, "MaxMoves": 0, "MaxOps": 1, "ZeroStyles": {"omitted"}} if ctx.quick else
+              {"MaxHosts": 3, "MaxDCs": 2, "MaxRacks": 2, "MaxRing": 4, "MaxRF": 2, "Lens": {2, 3, 4}, "MaxAlters": 1, "MaxMoves": 0, "MaxOps": 1, "ZeroStyles": {"omitted"}})
     cfg = tlc.write_cfg(os.path.join(ctx.scratch, "PlacementAlter.cfg"), constants=consts, invariants=ALTER_INVARIANTS, deadlock=False)
     res, states = tlc.enumerate_states("Placement", cfg, ctx.scratch, coverage=True, timeout=900)
     ctx.add_tlc(res, "placement-alter-histories")
@@ -359,7 +360,7 @@ def cache_domain(ctx, by_sig, hists, static):
 
 
 KS_WITNESSES = ["Witness_StatementOverridesSession", "Witness_SessionKeyspaceUsed"]
-ONE_KS = {"SessionKs": {"none"}, "StmtKs": {"a"}, "KeyChoices": "{TRUE}"}
+ONE_KS = {"SessionKs": {"none"}, "StmtKs": {"a"}, "KeyChoices": "{TRUE}", "ShareAddr": "{FALSE}"}
 
 
 class KeyspacePair:
@@ -367,20 +368,30 @@ class KeyspacePair:
     token each; keyspace "a"/"b" = NetworkTopologyStrategy with rf 1 in the datacenter of its single replica (or in a
     datacenter without hosts: no replica)."""
 
-    def __init__(self, n, reps, reps2):
+    def __init__(self, n, reps, reps2, addr=None):
         self.n = n
         self.P = L.repo_import("cassandra.policies")
         self.Q = L.repo_import("cassandra.query")
-        self.hosts = PL.make_hosts(list(range(1, n + 1)), [1] * n)
+        if addr is None:
+            self.hosts = PL.make_hosts(list(range(1, n + 1)), [1] * n)
+        else:                                  # several hosts on one IP address: endpoints differ by port
+            pool, conn = L.repo_import("cassandra.pool"), L.repo_import("cassandra.connection")
+            self.hosts = {}
+            for h in range(1, n + 1):
+                host = pool.Host(conn.DefaultEndPoint("10.0.1.%d" % addr[h - 1], 9042 + h), self.P.SimpleConvictionPolicy)
+                host.set_location_info(PL.dc_name(h), PL.rack_name(1))
+                self.hosts[h] = host
 
         def strat(r):
+            if len(r) >= 2:                     # ring walk from r[0]: SimpleStrategy
+                return {"kind": "Simple", "rf": len(r)}
             rfs = [0] * (n + 1)
             rfs[(r[0] - 1) if r else n] = 1
             return {"kind": "NTS", "rfs": rfs}
         self.md, names = PL.build_metadata(list(range(1, n + 1)), self.hosts, [strat(reps), strat(reps2)])
         self.names = {"a": names[0], "b": names[1], "none": None}
         self.inv = {v.endpoint: k for k, v in self.hosts.items()}
-        self.key = PL.key_bytes(1)
+        self.key = PL.key_bytes(2 * reps[0] - 1 if len(reps) >= 2 else 1)
 
     def replicas(self, ks):
         return [self.inv.get(r.endpoint, 0) for r in self.md.get_replicas(self.names[ks], self.key)]
@@ -407,15 +418,17 @@ def ks_state(st):
             "child": [int(x) for x in st["child"]], "up": {h + 1: str(v) for h, v in enumerate(st["up"])},
             "dist": {h + 1: str(v) for h, v in enumerate(st["dist"])}, "shuffle": bool(st["shuffle"]),
             "head": [int(x) for x in st["head"]], "tail": [int(x) for x in st["tail"]],
-            "sks": str(st["sks"]), "qks": str(st["qks"]), "hasKey": bool(st["hasKey"])}
+            "sks": str(st["sks"]), "qks": str(st["qks"]), "hasKey": bool(st["hasKey"]),
+            "addr": [int(x) for x in st["addr"]]}
 
 
 def ks_evaluate(d, cache=None):
     """One (session keyspace, statement keyspace) combination on the real policy. Returns failures or None (unbound)."""
-    key = (d["n"], tuple(d["reps"]), tuple(d["reps2"]))
+    shared = d.get("addr") and d["addr"] != list(range(1, d["n"] + 1))
+    key = (d["n"], tuple(d["reps"]), tuple(d["reps2"]), tuple(d["addr"]) if shared else None)
     kp = cache.get(key) if cache is not None else None
     if kp is None:
-        kp = KeyspacePair(d["n"], d["reps"], d["reps2"])
+        kp = KeyspacePair(d["n"], d["reps"], d["reps2"], d["addr"] if shared else None)
         if cache is not None:
             cache[key] = kp
     if kp.replicas("a") != d["reps"] or kp.replicas("b") != d["reps2"]:
@@ -435,13 +448,60 @@ def ks_evaluate(d, cache=None):
     return fails
 
 
+def addr_domain(ctx, by_sig):
+    """Hosts sharing an IP address (endpoint = address + port): the plan is made of hosts, none of the wrapped plan's
+    hosts may disappear because it shares its address with a replica already yielded."""
+    domains = [{"N": 2, "MaxReps": 2}] if ctx.quick else [{"N": 2, "MaxReps": 2}, {"N": 3, "MaxReps": 1}]
+    for dom in domains:
+        consts = dict(dom, **ONE_KS)
+        consts["ShareAddr"] = "{TRUE}"
+        tag = "N%d_R%d" % (dom["N"], dom["MaxReps"])
+        cfg = tlc.write_cfg(os.path.join(ctx.scratch, "TokenAwareAddr_%s.cfg" % tag), constants=consts, invariants=INVARIANTS, deadlock=False)
+        res, states = tlc.enumerate_states("TokenAware", cfg, ctx.scratch, timeout=1200)
+        ctx.add_tlc(res, "exhaustive:shared-addresses:" + tag)
+        if res.violation:
+            ctx.violation("TLC: invariant %s violated in TokenAware.tla" % res.invariant,
+                          replay={"trace": [s for _, s in res.trace()]}, signature="spec:" + str(res.invariant))
+            return False
+        if dom is domains[0]:
+            w = "Witness_NonReplicaSharesAddressWithHead"
+            wcfg = tlc.write_cfg(os.path.join(ctx.scratch, w + ".cfg"), constants=consts, invariants=[w], deadlock=False)
+            wres = tlc.check_model("TokenAware", wcfg, ctx.scratch, timeout=600, workers=2, heap="1g")
+            if wres.invariant != w:
+                raise tlc.MachineryError("vacuity witness %s was not reached" % w)
+        cache, unbound, done = {}, 0, 0
+        states.sort(key=lambda s: repr(sorted(s.items())))
+        for i, st in enumerate(states):
+            d = ks_state(st)
+            fails = ks_evaluate(d, cache)
+            if fails is None:
+                unbound += 1
+                continue
+            ctx.evaluations += 1
+            done += 1
+            if fails:
+                det = {"n": d["n"], "reps": d["reps"], "child": d["child"], "up": d["up"], "dist": d["dist"], "shuffle": d["shuffle"],
+                       "head": d["head"], "tail": d["tail"], "key_position": 1, "ring_instance": {}, "keyspaces": d}
+                fails = [(fails[0][0], "hosts with IP addresses %s: %s" % (d["addr"], fails[0][1]))] + fails[1:]
+                by_sig.setdefault("TokenAware:" + fails[0][0], []).append((len(d["child"]) + len(d["reps"]), det, fails))
+                continue
+            ctx.traces_validated += 1
+            ctx.nontrivial(("addr", repr(sorted(d.items(), key=repr))))
+            if i % 900 == 17:
+                ctx.sample({k: d[k] for k in ("addr", "reps", "child", "up", "dist", "shuffle", "plan")})
+        ctx.count("shared_address_combinations_checked", done)
+        if unbound > len(states) // 3:
+            raise tlc.MachineryError("%d of %d shared-address combinations could not be bound" % (unbound, len(states)))
+    return True
+
+
 def ks_domain(ctx, by_sig):
     """(session keyspace, statement keyspace) pairs over two keyspaces with different replicas for the key."""
     consts = {"N": 2, "MaxReps": 1}
     if ctx.quick:
-        consts.update({"SessionKs": {"none", "a"}, "StmtKs": {"none", "b"}, "KeyChoices": "{TRUE}"})
+        consts.update({"SessionKs": {"none", "a"}, "StmtKs": {"none", "b"}, "KeyChoices": "{TRUE}", "ShareAddr": "{FALSE}"})
     else:
-        consts.update({"SessionKs": {"none", "a", "b"}, "StmtKs": {"none", "a", "b"}, "KeyChoices": "{TRUE, FALSE}"})
+        consts.update({"SessionKs": {"none", "a", "b"}, "StmtKs": {"none", "a", "b"}, "KeyChoices": "{TRUE, FALSE}", "ShareAddr": "{FALSE}"})
     cfg = tlc.write_cfg(os.path.join(ctx.scratch, "TokenAwareKs.cfg"), constants=consts, invariants=INVARIANTS + ["StatementKeyspaceWins"],
                         deadlock=False)
     res, states = tlc.enumerate_states("TokenAware", cfg, ctx.scratch, timeout=1200)
@@ -513,6 +573,8 @@ def run(ctx):
     if not alter_domain(ctx, by_sig):
         return
     if not ks_domain(ctx, by_sig):
+        return
+    if not addr_domain(ctx, by_sig):
         return
     counts = {}
     for sig, lst in sorted(by_sig.items()):
